@@ -54,6 +54,10 @@ func runC12(c *core.Ctx) {
 	}
 	o.Trusted = []string{"TLC", "libs/ser decoding into fresh objects", "golang.org/x/crypto/sha3", "the reflective leaf walker of the harness (explicit content rules, independent of struct tags)"}
 
+	if c.Replay != "" {
+		runReplayFile(c)
+		return
+	}
 	exh1 := runParts(c)
 	exh2 := runIdent(c)
 	o.Exhaustive = exh1 && exh2
@@ -133,15 +137,13 @@ func runParts(c *core.Ctx) bool {
 	return ok
 }
 
-func replayParts(c *core.Ctx, g *mbt.Graph, insts []pInst, cfg string) bool {
-	// real blocks for the "block" instantiation
-	var blocks []*types.Block
-	var blockBz [][]byte
-	var kits []*blockKit
+const firstCons = 4
+
+// partBlocks builds the real blocks of the "block" instantiations from the seed.
+func partBlocks(c *core.Ctx) (blocks []*types.Block, blockBz [][]byte, kits []*blockKit, ok bool) {
 	// the last three are first-height blocks (empty last commit, Recover = 0): the ones a
 	// ConsensusState fresh from genesis can be offered
 	shapes := []shape{{4, 2, 4}, {6, 1, 5}, {1, 0, 2}, {12, 2, 7}, {0, 0, 0}, {5, 2, 0}, {9, 1, 0}}
-	const firstCons = 4
 	for i, sh := range shapes {
 		kit := newKit(c.Seed*101+int64(i), maxInt(sh.NPc, 4))
 		rec := uint32(i % 2)
@@ -152,13 +154,21 @@ func replayParts(c *core.Ctx, g *mbt.Graph, insts []pInst, cfg string) bool {
 		bz, err := encodeBlock(b)
 		if err != nil {
 			c.Infra("cannot encode block %s: %v", sh, err)
-			return false
+			return nil, nil, nil, false
 		}
 		if err := b.ValidateBasic(); err != nil {
 			c.Infra("built block %s is not valid: %v", sh, err)
-			return false
+			return nil, nil, nil, false
 		}
 		blocks, blockBz, kits = append(blocks, b), append(blockBz, bz), append(kits, kit)
+	}
+	return blocks, blockBz, kits, true
+}
+
+func replayParts(c *core.Ctx, g *mbt.Graph, insts []pInst, cfg string) bool {
+	blocks, blockBz, kits, ok := partBlocks(c)
+	if !ok {
+		return false
 	}
 	reps := make([]*pReplay, len(insts))
 	var wg sync.WaitGroup
@@ -171,7 +181,7 @@ func replayParts(c *core.Ctx, g *mbt.Graph, insts []pInst, cfg string) bool {
 			defer func() { <-sem }()
 			in := insts[ii]
 			rng := rand.New(rand.NewSource(c.Seed*1000003 + int64(ii)*7 + 1))
-			r := &pReplay{c: c, inst: in, seed: c.Seed, rng: rng, drifted: map[string]bool{}, classes: map[string]int{}, blocks: blocks, blockBz: blockBz, kits: kits}
+			r := &pReplay{c: c, inst: in, seed: c.Seed, rng: rng, drifted: map[string]bool{}, classes: map[string]int{}, blocks: blocks, blockBz: blockBz, kits: kits, forceBlock: -1}
 			if in.Cons {
 				r.blocks, r.blockBz, r.kits = blocks[firstCons:], blockBz[firstCons:], kits[firstCons:]
 			}
@@ -261,13 +271,13 @@ func replayParts(c *core.Ctx, g *mbt.Graph, insts []pInst, cfg string) bool {
 	return true
 }
 
+var driftSeen sync.Map
+
+// driftOnce records a pi_shape mismatch once per run.
 func driftOnce(c *core.Ctx, msg string) {
-	for _, d := range c.Out().Drift {
-		if d == msg {
-			return
-		}
+	if _, dup := driftSeen.LoadOrStore(msg, true); !dup {
+		c.Drift("%s", msg)
 	}
-	c.Drift("%s", msg)
 }
 
 // every class of offer of the specification must occur in the exported graph
@@ -296,7 +306,7 @@ func partsControl(c *core.Ctx, g *mbt.Graph, blocks []*types.Block, blockBz [][]
 			lab, _ := json.Marshal(b)
 			g2 := &mbt.Graph{States: g.States, Edges: append([]mbt.Edge{}, g.Edges...), Out: g.Out}
 			g2.Edges[ei].Act = lab
-			r := &pReplay{c: c, inst: pInst{Name: "control", Unit: 64}, seed: c.Seed, rng: rand.New(rand.NewSource(1)), drifted: map[string]bool{}, classes: map[string]int{}, blocks: blocks, blockBz: blockBz}
+			r := &pReplay{forceBlock: -1, c: c, inst: pInst{Name: "control", Unit: 64}, seed: c.Seed, rng: rand.New(rand.NewSource(1)), drifted: map[string]bool{}, classes: map[string]int{}, blocks: blocks, blockBz: blockBz}
 			r.run(g2, []int{si, ei})
 			c.SetExtra("negative_control_parts", fmt.Sprintf("corrupted expectation noticed: %v", len(r.viol) > 0))
 			return len(r.viol) > 0
@@ -336,7 +346,7 @@ func runIdent(c *core.Ctx) bool {
 	}
 	c.SetExtra("identity_model", map[string]interface{}{"states": len(g.States), "edges": len(g.Edges), "edges_by_component": g.ActionKinds("comp"), "edges_by_kind": g.ActionKinds("kind"), "header_fields": len(modelFields)})
 	t0 := time.Now()
-	beh, evals, distinct, skipped := runIdentity(c, g, c.Seed, c.Pick(3, 3), c.Pick(0, 2))
+	beh, evals, distinct, skipped, cross := runIdentity(c, g, c.Seed, c.Pick(3, 3), c.Pick(0, 2))
 	o := c.Out()
 	o.Traces += beh
 	o.Evaluations += evals
@@ -354,7 +364,9 @@ func runIdent(c *core.Ctx) bool {
 		rep = append(rep, k+": "+report[k])
 	}
 	c.SetExtra("header_field_survey", rep)
-	c.SetExtra("identity_replay", map[string]interface{}{"blocks": beh, "perturbed_blocks_compared": evals, "distinct_perturbations": distinct, "skipped": skipped, "survey_evaluations": sevals})
+	c.SetExtra("identity_replay", map[string]interface{}{"blocks": beh, "perturbed_blocks_compared": evals, "distinct_perturbations": distinct, "skipped": skipped, "survey_evaluations": sevals,
+		"parts_of_perturbed_blocks_offered_to_the_proposers_set": cross})
+	o.Evaluations += cross
 	if !identControl(c) {
 		c.Infra("vacuous binding: the identity replay accepted a block that was not perturbed")
 		return false
